@@ -260,19 +260,7 @@ func scenC08(r *Run, job *Job) {
 	// classification for the known-findings file: a request of a prefix process was still being handled (goroutine held
 	// inside the API server) when that process died and the reset completed
 	if r.Pass == 1 {
-		for _, h := range r.Holds {
-			if h.W != nil && strings.Contains(h.W.Sig, "lambda/rapi") {
-				for _, p := range w.Sup.All() {
-					if !p.Alive && p.DeathStep >= h.AtStep && h.Released {
-						fn := h.W.Sig
-						if i := strings.Index(fn, "<"); i > 0 {
-							fn = fn[:i]
-						}
-						r.Known = "zombie-api-request@" + fn
-					}
-				}
-			}
-		}
+		r.Known = zombieAPIRequest(r, w)
 	}
 	// ---- normalised trace of the suffix ----
 	trace := c08Trace(r, w, e, sufStart, step0, t0, T)
@@ -415,3 +403,24 @@ func c08Trace(r *Run, w *World, e *Engine, sufStart, step0 int, t0, T time.Durat
 func pathNoID(p string) string { return uuidFind.ReplaceAllString(p, "ID") }
 
 func jsonUnmarshal(b []byte, v interface{}) { _ = json.Unmarshal(b, v) }
+
+// zombieAPIRequest classifies runs of the "zombie API request" family for the known-findings file: a goroutine was
+// held inside the API server (lambda/rapi: middleware, handlers) while a process died, and released afterwards -
+// i.e. a request of a dead process was still being handled when (or after) its generation was reset.
+func zombieAPIRequest(r *Run, w *World) string {
+	for _, h := range r.Holds {
+		if h.W == nil || !h.Released || !strings.Contains(h.W.Sig, "lambda/rapi") {
+			continue
+		}
+		for _, p := range w.Sup.All() {
+			if !p.Alive && p.DeathStep >= h.AtStep {
+				fn := h.W.Sig
+				if i := strings.Index(fn, "<"); i > 0 {
+					fn = fn[:i]
+				}
+				return "zombie-api-request@" + fn
+			}
+		}
+	}
+	return ""
+}
